@@ -11,6 +11,7 @@ package c03
 
 import (
 	"fmt"
+	"os"
 	"runtime"
 	"sync"
 	"time"
@@ -53,7 +54,7 @@ func runOne(c *verdict.Ctx, idx int) {
 	}
 	net := sim.NewNet(r, nopt)
 	defer net.Close()
-	net.TraceOn = c.Replay() != ""
+	net.TraceOn = c.Replay() != "" || os.Getenv("VERIF_C03_CASE") != ""
 	net.Start()
 	net.Pump()
 	// adversarial prefix: random asynchrony, with a scripted strategy in most executions
@@ -104,6 +105,15 @@ func runOne(c *verdict.Ctx, idx int) {
 			}
 		} else {
 			behind++
+		}
+	}
+	// premise of the property: the correct nodes' clocks (the wall clock) are not behind the latest block time
+	for _, i := range net.Order {
+		if lbt := net.Nodes[i].CS.GetState().LastBlockTime; lbt.After(time.Now()) {
+			c.Eval()
+			c.Count("premise_not_met.block_time_ahead_of_clock", 1)
+			c.Inconclusive("premise not met: the simulated chain's block time is ahead of the wall clock")
+			return
 		}
 	}
 	// W from the reference schedule of the validator set of height H
@@ -189,7 +199,27 @@ func runOne(c *verdict.Ctx, idx int) {
 		nodes = append(nodes, fmt.Sprintf("n%d %d/%d/%v locked=%v valid=%v proposal=%v store=%d pending=%v:%d/%d/%v", i, rs.Height, rs.Round, rs.Step,
 			rs.LockedRound, rs.ValidRound, rs.Proposal != nil, net.Nodes[i].Blocks.Height(), p, t.Height, t.Round, t.Step))
 	}
-	w := witness{"exec", idx, cfg, H, rstar, W, bound, res, nodes, tail(net.Trace, 150)}
+	if os.Getenv("VERIF_C03_CASE") != "" {
+		nd0 := net.Nodes[net.Order[0]]
+		for h := nd0.Blocks.Base(); h <= nd0.Blocks.Height(); h++ {
+			b := nd0.Blocks.LoadBlock(h)
+			sc := nd0.Blocks.LoadSeenCommit(h)
+			ts := ""
+			for _, s := range sc.Signatures {
+				ts += fmt.Sprintf(" [%d %s]", s.BlockIDFlag, s.Timestamp.Format("05.000"))
+			}
+			fmt.Printf("DEBUG height %d block time %s proposer %X round %d seen-commit:%s\n", h, b.Time.Format("15:04:05.000"), b.ProposerAddress[:3], sc.Round, ts)
+		}
+		for _, i := range net.Order {
+			nd := net.Nodes[i]
+			rs := nd.CS.GetRoundState()
+			if rs.ProposalBlock != nil {
+				err := nd.Exec.ValidateBlock(nd.CS.GetState(), rs.ProposalBlock)
+				fmt.Printf("DEBUG node %d proposal block %X evidence=%d validate: %v\n", i, rs.ProposalBlock.Hash(), len(rs.ProposalBlock.Evidence.Evidence), err)
+			}
+		}
+	}
+	w := witness{"exec", idx, cfg, H, rstar, W, bound, res, nodes, tail(net.Trace, 400)}
 	if timed {
 		w.Stream = fmt.Sprintf("exec(timed delta=%v first_sufficient_round=%d)", delta, rNeed)
 	}
@@ -231,7 +261,14 @@ func Run(c *verdict.Ctx) int {
 			}
 		}()
 	}
+	only := -1
+	if v := os.Getenv("VERIF_C03_CASE"); v != "" {
+		fmt.Sscan(v, &only)
+	}
 	for i := 0; i < n; i++ {
+		if only >= 0 && i != only {
+			continue
+		}
 		jobs <- i
 	}
 	close(jobs)
